@@ -48,5 +48,23 @@ def g(p, q=0, *, k=0):
     return 2
 
 
+@m.memento_function(cluster="vfc", version="1")
+def cleaf(a):
+    sys.audit("vf.body", "cleaf", {"a": a})
+    return a
+
+
+@m.memento_function(cluster="vfc", version="1", dependencies=[cleaf])
+def cmid(a):
+    sys.audit("vf.body", "cmid", {"a": a})
+    return cleaf(a)
+
+
+@m.memento_function(cluster="vfc", version="1", dependencies=[cmid])
+def ctop(a):
+    sys.audit("vf.body", "ctop", {"a": a})
+    return cmid(a)
+
+
 SIGS = {"f1": ["a"], "f2": ["a", "b"], "f2d": ["a", "b"], "f3": ["a", "b", "c"], "fk": ["a", "k"], "fkw": ["a"]}
 KWONLY = {"fk": {"k"}, "fkw": {"extra", "zeta"}}
